@@ -646,10 +646,21 @@ def toCert (l : Option LClaims) : Option CClaims :=
              minHost := h.min, maxHost := h.max, defHost := h.dflt },
       enableSSH := en }
 
-/-- `authority.ValidateDurations` (admin API: create / update provisioner), as coded: every set duration is
-    non-negative, `min ≤ max`, `min ≤ default`; the third comparison repeats `min > default` (a nil pointer's
-    `Value()` is 0), so `default > max` is never refused. -/
+/-- `authority.ValidateDurations` (admin API: create / update provisioner), as of fix e2d04ab: every set duration
+    is non-negative, `min ≤ max`, `min ≤ default`, `default ≤ max` (a nil pointer's `Value()` is 0, so a comparison
+    with an unset side is guarded by the emptiness tests). -/
 def validateDurations (d : Dur3) : Bool :=
+  let v := fun (o : Option Int) => o.getD 0
+  if d.min.isSome ∧ v d.min < 0 then false
+  else if d.max.isSome ∧ v d.max < 0 then false
+  else if d.dflt.isSome ∧ v d.dflt < 0 then false
+  else if d.min.isSome ∧ d.max.isSome ∧ v d.min > v d.max then false
+  else if d.min.isSome ∧ d.dflt.isSome ∧ v d.min > v d.dflt then false
+  else if d.dflt.isSome ∧ d.max.isSome ∧ v d.dflt > v d.max then false
+  else true
+
+/-- … before fix e2d04ab the third comparison repeated `min > default`, so `default > max` was never refused -/
+def validateDurationsBefore (d : Dur3) : Bool :=
   let v := fun (o : Option Int) => o.getD 0
   if d.min.isSome ∧ v d.min < 0 then false
   else if d.max.isSome ∧ v d.max < 0 then false
